@@ -273,6 +273,16 @@ m('neutral_p32_sampler_or','neutral','src/p32e2.rs',
   "P32E2::from_bits(((P32E2::from_bits(s) - P32E2::ONE).to_bits() & !3) | ((P32E2::from_bits(s) - P32E2::ONE).to_bits() & 3) ^ s2)",
   note='same value, written differently')
 
+m('neutral_p16_range_not_power_of_two','neutral','src/p16e1.rs',
+  "P16E1::sub_one(rng.gen_range(0_u32..0x_4_0000))","P16E1::sub_one(rng.gen_range(0_u32..0x40001))",
+  note='range 0..0x40001: the extra value 0x40000 is saturated by the clamp, so the property holds; but rand rejection zone is no longer a single bit, and a StepRng-like counter stream is rejected for ~130 000 consecutive words. Once reported as no_progress by the sweep mode (a false alarm, corrected: sweep words are not counted against the liveness cap)')
+m('neutral_p32_ranges_not_power_of_two','neutral','src/p32e2.rs',
+  """        let s = rng.gen_range(0x_4000_0000_u32..0x_4800_0000);
+        let s2 = rng.gen_range(0_u32..4);""",
+  """        let s = rng.gen_range(0x_4000_0000_u32..0x_47ff_fff9);
+        let s2 = rng.gen_range(0_u32..3);""",
+  note='narrower, non-power-of-two ranges: still inside [0,1); different rejection pattern in rand')
+
 def sh(*a, **k): return subprocess.run(a, cwd=REPO, check=True, capture_output=True, text=True, **k).stdout
 assert sh('git','status','--porcelain').strip()=='' , '/repo not clean'
 os.makedirs(OUT, exist_ok=True)
